@@ -211,7 +211,6 @@ func c02AfterHand(p *Play, hd *h.Hand) {
 	}
 }
 
-
 // c02CheckRoster: the hand's list = the dealt-in players, once each, in clockwise seat order.
 func c02CheckRoster(p *Play, open *pt.Table, roster []string, w func() interface{}) bool {
 	c := p.C
@@ -400,9 +399,11 @@ func init() {
 			}
 			return 256
 		},
-		MinNontrivial:    func(tier string) int { return map[string]int{"quick": 80, "thorough": 1200}[tier] },
-		RequiredFeatures: func(string) []string { return []string{"roster-not-identity", "dead-button", "dead-sb", "short-deck-hand", "membership-change-mid-hand:buyin", "membership-change-mid-hand:leave", "zero-chip-player:hand-refused"} },
-		CaseTimeout:      180e9,
+		MinNontrivial: func(tier string) int { return map[string]int{"quick": 80, "thorough": 1200}[tier] },
+		RequiredFeatures: func(string) []string {
+			return []string{"roster-not-identity", "dead-button", "dead-sb", "short-deck-hand", "membership-change-mid-hand:buyin", "membership-change-mid-hand:leave", "zero-chip-player:hand-refused"}
+		},
+		CaseTimeout: 180e9,
 		Run: func(c *h.Ctx) {
 			po := PlayOpts{
 				Hands: 6 + c.R.Intn(8),
